@@ -28,6 +28,9 @@ class TranslateError(Exception):
     pass
 
 
+REF_COUNT = [0]   # lines judged by the plugin's independent reference in this run
+
+
 class Failure:
     def __init__(self, kind, case, impl=None, model=None, crash=None, clause="", name="", stderr=""):
         self.kind = kind          # diverge | crash | obligation
@@ -113,7 +116,28 @@ def run_both(plugin, exe, cases, timeout):
         n = min(len(impl), len(lines))
         bad_cases = set()
         i = 0
+        ref = getattr(plugin, "reference", None)
         while i < n:
+            exp = None
+            if ref is not None and impl[i] == model[i] and not lines[i].startswith("case"):
+                try:
+                    exp = ref(lines[i])
+                except Exception:
+                    exp = None
+                if exp is not None:
+                    REF_COUNT[0] += 1
+            if exp is not None and impl[i] != exp:
+                # model and implementation agree but an independent reference says both are wrong
+                k = case_of(starts, i)
+                if k not in bad_cases:
+                    bad_cases.add(k)
+                    e = starts[k + 1] if k + 1 < len(starts) else len(lines)
+                    f = Failure("diverge", sub[k], impl[starts[k]:min(e, len(impl))], ["(reference) line %d: %s" % (i - starts[k], exp)],
+                                clause="independent reference (%s) disagrees with the implementation" % getattr(plugin, "REFERENCE_NAME", "python oracle"))
+                    fails.append(f)
+                    budget -= 1
+                i = starts[k + 1] if k + 1 < len(starts) else n
+                continue
             if impl[i] != model[i]:
                 k = case_of(starts, i)
                 if k not in bad_cases:
@@ -228,28 +252,34 @@ def shrink(plugin, exe, f, max_trials=150):
             n = min(n * 2, len(body))
     # optional per-line simplification by the plugin
     if hasattr(plugin, "simplify_line"):
-        for i in range(len(case)):
-            for cand_line in plugin.simplify_line(case[i]):
-                if trials >= max_trials * 2:
-                    break
-                cand = case[:i] + [cand_line] + case[i + 1:]
-                trials += 1
-                try:
-                    g = fails_single(plugin, exe, cand)
-                except Exception:
-                    g = None
-                if same(g):
-                    case = cand
-                    best = g
-                    break
+        progress = True
+        while progress and trials < max_trials * 3:
+            progress = False
+            for i in range(len(case)):
+                for cand_line in plugin.simplify_line(case[i]):
+                    if trials >= max_trials * 3:
+                        break
+                    if cand_line == case[i]:
+                        continue
+                    cand = case[:i] + [cand_line] + case[i + 1:]
+                    trials += 1
+                    try:
+                        g = fails_single(plugin, exe, cand)
+                    except Exception:
+                        g = None
+                    if same(g):
+                        case = cand
+                        best = g
+                        progress = True
+                        break
     return best
 
 
 # ------------------------------------------------------------------ verdict
 
-def write_replay(pid, seed, k, f, tree):
+def write_replay(pid, seed, k, f, tree, tier="quick"):
     os.makedirs(core.REPLAYS, exist_ok=True)
-    path = os.path.join(core.REPLAYS, "%s-%d-%d.json" % (pid, seed, k))
+    path = os.path.join(core.REPLAYS, "%s-%s-%d-%d.json" % (pid, tier, seed, k))
     with open(path, "w") as fp:
         json.dump({
             "property": pid, "kind": f.kind, "lines": f.case, "impl": f.impl[:200], "model": f.model[:200],
@@ -419,11 +449,7 @@ def check(plugin, pid, tier, seed):
                 known_hits.append(kf)
                 out_lines.append("KNOWN-FINDING: property=%s %s" % (pid, known[kf["key"]]))
         if hasattr(plugin, "reference"):
-            rf, rstats = reference_pass(plugin, exe, allc, timeout)
-            stats["reference_checked"] = rstats
-            for g in rf:
-                if not any(g.case == h.case for h in kfails):
-                    kfails.append(g)
+            stats["reference_checked"] = REF_COUNT[0]
         if hasattr(plugin, "extra"):
             ex = plugin.extra({"exe": exe, "libdir": libdir, "tier": tier, "seed": seed, "rng": rng, "stats": stats,
                                "known": known, "out": out_lines, "tree": tree})
@@ -456,7 +482,7 @@ def check(plugin, pid, tier, seed):
         print(l)
     k = 0
     for f in violations:
-        path = write_replay(pid, seed, k, f, tree)
+        path = write_replay(pid, seed, k, f, tree, tier)
         k += 1
         suffix = "" if f.has_input else " no-failing-input-found"
         print("VIOLATION property=%s replay=%s%s" % (pid, path, suffix))
@@ -482,6 +508,7 @@ def check(plugin, pid, tier, seed):
             "samples": stats["samples"] or ["(none)"], "distribution": stats["distribution"],
             "known_findings_reproduced": [kf["key"] for kf in known_hits],
             "tree_hash": tree, "lean_build_s": round(L["build_s"], 1),
+            "leanchecker_rc": L.get("leanchecker_rc"),
         },
         "assumptions": list(getattr(plugin, "ASSUMPTIONS", [])),
         "wall_s": round(wall, 2), "violations": len(violations),
